@@ -305,7 +305,8 @@ BwWake(t) == /\ pc[t] = "bw_wake" /\ ev' = [ev EXCEPT ![lv[t].dc] = 1]
 RsTail(c) == /\ pc[c] = "rs_tail" /\ Go(c, IF tail # NULL THEN "push_tail" ELSE "rs_fast")
              /\ UNCHANGED <<st, SIDE, Q, root, lv, ip, ev, RUN, ref, pred, GH>>
 RsFast(c) == /\ pc[c] = "rs_fast"
-             /\ LET r == TryReserveSyncWidth(st) IN
+             /\ LET r == IF Mut = "reader_ignores_pending_barrier" /\ SyncRunnable(st) /\ ~st.dirty
+                         THEN [ok |-> TRUE, s |-> [st EXCEPT !.used = @ + 1]] ELSE TryReserveSyncWidth(st) IN
                 IF r.ok THEN st' = r.s /\ Go(c, "sync_call") ELSE st' = st /\ Go(c, "push_tail")
              /\ UNCHANGED <<SIDE, Q, root, lv, ip, ev, RUN, ref, pred, GH>>
 (* ============================ dispatch_barrier_sync ============================ *)
@@ -324,7 +325,7 @@ PwRmw(c) ==
                     ELSE lv' = lv /\ Go(c, "wait_event")
     /\ UNCHANGED <<SIDE, Q, root, ip, ev, RUN, ref, pred, GH>>
 \* _dispatch_thread_event_wait
-WaitEvent(c) == /\ pc[c] = "wait_event" /\ ev[lv[c].item] = 1 /\ Go(c, "sync_call")
+WaitEvent(c) == /\ pc[c] = "wait_event" /\ (ev[lv[c].item] = 1 \/ Mut = "sync_does_not_wait") /\ Go(c, "sync_call")
                 /\ UNCHANGED <<st, SIDE, Q, root, lv, ip, ev, RUN, ref, pred, GH>>
 \* after the callout: readers give their width back; barriers complete
 SyncDone(c) ==
@@ -499,7 +500,7 @@ Order == \A b \in running \cup done : \A a \in pred[b] : (IsBarrier(a) \/ IsBarr
 SyncAfterEnd == \A c \in Clients : \A k \in 1..(ip[c] - 1) :
                    ("i" \in DOMAIN Prog[c][k] /\ IsWaiter(Prog[c][k].i)) => Prog[c][k].i \in done
 \* width accounting never borrows / overflows (the same conditions _dispatch_lane_class_dispose crashes on)
-WidthOK == st.used >= 0 /\ st.used <= 2 * W
+WidthOK == st.used >= 0 /\ st.used <= 2 * W + Cardinality({i \in Items : IsWaiter(i)})   \* sync readers do not observe the limit
 \* C06: nothing starts while suspended from the lane's own context, before activation;
 \*      a suspend from another thread lets at most one more (serial) item start
 SuspendedRunsNothing == bad = ""
